@@ -19,11 +19,24 @@ open Dulwich Dulwich.Objects
 section cache
 variable {F : Type}
 
-/-- **Invariant over histories.**  Start from any state satisfying the invariant (a fresh object does),
-apply any sequence of public setters that touch the flags (kind ≠ 0), `set_raw_string`, `id` and
-`as_raw_string()` calls: `id` then returns `H (object_header ++ content)` where content is what
-`as_raw_string()` returns.  `H` is an arbitrary function (SHA-1, SHA-256, anything). -/
-theorem id_is_hash_always (H : Bytes → Bytes) (C : Cls F) (hA : AliasClass C) (s0 : St F) (h0 : Inv H C s0)
+/-- The full statement for `Blob`, over the setter kinds the class really has (translator's table:
+`data` = 2, `chunked` = 0): after any history, `id` is the hash of header ++ content.  It is **false**
+on the unchanged code (`id_is_hash_always_statement_false` below); what is proved for every class is
+`id_is_hash_always_partial`, whose extra hypothesis is "no kind-0 setter in the history". -/
+def IdIsHashAlwaysStatement : Prop :=
+  ∀ (H : Bytes → Bytes) (ops : List (Op Bytes)),
+    (∀ op ∈ ops, match op with
+      | .set k _ => k ∈ (OGen.setters.filter (·.1 == "Blob")).map (·.2.2)
+      | _ => True) →
+    (shaStep H blobCls (run H blobCls blobInit ops)).1
+      = (content blobCls (run H blobCls blobInit ops)).bind (nameOf H blobCls)
+
+/-- **Invariant over histories** (partial: histories without a flag-less setter).  Start from any state
+satisfying the invariant (a fresh object does), apply any sequence of public setters that touch the
+flags (kind ≠ 0), `set_raw_string`, `id` and `as_raw_string()` calls: `id` then returns
+`H (object_header ++ content)` where content is what `as_raw_string()` returns.  `H` is an arbitrary
+function (SHA-1, SHA-256, anything).  Missing for the full statement: `Blob.chunked` (kind 0). -/
+theorem id_is_hash_always_partial (H : Bytes → Bytes) (C : Cls F) (hA : AliasClass C) (s0 : St F) (h0 : Inv H C s0)
     (ops : List (Op F)) (hops : ∀ op ∈ ops, op.invalidating) :
     (shaStep H C (run H C s0 ops)).1 = (content C (run H C s0 ops)).bind (nameOf H C) :=
   shaStep_fst H C _ (run_inv H C hA ops s0 hops h0)
@@ -102,6 +115,18 @@ theorem id_stale_after_chunked_counterexample (H : Bytes → Bytes) (hH : ∀ a 
   intro h
   have := hH _ _ (Option.some.inj h)
   simp at this
+
+/-- The full statement is false on the unchanged code (take `H := id`). -/
+theorem id_is_hash_always_statement_false : ¬ IdIsHashAlwaysStatement := by
+  intro h
+  have h1 := h id [.set 2 (fun _ => [120]), .getId, .set 0 (fun _ => [121])] (by
+    intro op hop
+    simp only [List.mem_cons, List.not_mem_nil, or_false] at hop
+    rcases hop with rfl | rfl | rfl
+    · decide
+    · trivial
+    · decide)
+  exact (id_stale_after_chunked_counterexample id (fun _ _ e => e)).2 h1
 
 end cache
 
@@ -374,6 +399,30 @@ def cxTagText : Bytes := [111, 98, 106, 101, 99, 116, 32, 97, 10, 116, 121, 112,
 def cxCommit (mergetag : List Bytes) (message : Option Bytes) : Commit :=
   ⟨some [97], [], ⟨some [65, 62], some 1, some 0, some false⟩, ⟨some [67, 62], some 1, some 0, some false⟩,
    none, mergetag, [], none, message⟩
+
+/-- **The statement of the property for commits, end to end.**  Take a live `Commit` in any state reached
+by an admissible history, assign well-formed field values through dirty-marking setters (`u`), read `id`
+and `as_raw_string()` any number of times: the id is `H("commit <len>\0" ++ bytes)` where `bytes` are
+such that parsing them gives back exactly the current field values. -/
+theorem commit_id_after_edit (H : Bytes → Bytes) (s0 : St Commit) (h0 : Inv H commitCls s0)
+    (ops : List (Op Commit)) (hops : ∀ op ∈ ops, op.invalidating) (u : Commit → Commit)
+    (hwf : WFCommit (u (run H commitCls s0 ops).fields))
+    (reads : List (Op Commit)) (hr : ∀ op ∈ reads, op.isRead) :
+    ∃ bs, (shaStep H commitCls (run H commitCls (setStep commitCls 1 u (run H commitCls s0 ops)) reads)).1
+        = (hashInput 1 bs).map H ∧
+      deserializeCommit bs = .ok (u (run H commitCls s0 ops).fields) := by
+  obtain ⟨bs, h1, h2⟩ := commit_roundtrip _ hwf
+  refine ⟨bs, ?_, h2⟩
+  have := id_after_edit H commitCls (fun h => by cases h) s0 h0 ops hops u reads hr
+  simp only at this
+  rw [this]
+  have e : commitCls.ser (u (run H commitCls s0 ops).fields) = some bs := by
+    show Except.toOpt (serializeCommit _) = some bs
+    rw [h1]; rfl
+  rw [e]; rfl
+
+/-- The header the hash input starts with is `commit <decimal length> NUL` (evaluated on an instance). -/
+example : hashInput 1 [120, 121] = some [99, 111, 109, 109, 105, 116, 32, 50, 0, 120, 121] := by decide
 
 /-- **Negation witness (finding mergetag-lf).**  `Commit._serialize` cuts the last byte of every
 mergetag text (`as_raw_string()[:-1]`) and the parser appends LF: a mergetag whose text does not end in
